@@ -13,7 +13,9 @@ ID = "C14"
 LEVEL = "proof"
 F = "moclo/moclo/record.py"
 FILES = [F]
-FUNCTIONS = [(F, "CircularRecord.reverse_complement"), (F, "CircularRecord.__init__")]
+FUNCTIONS = [(F, "CircularRecord.reverse_complement"), (F, "CircularRecord.__init__"),
+             # "reverse-complementing commutes with rotation": the two rotation operators, for every amount (any int)
+             (F, "CircularRecord.__rshift__"), (F, "CircularRecord.__lshift__")]
 ASSUMES = ["D-REC-RC: SeqRecord.reverse_complement flips every feature (start' = n - end, end' = n - start, strand' = -strand, "
            "parts reversed) and reverses letter annotations -- Biopython code, assumed; exercised by the bounded part",
            "rc axioms (docs/source/theory/definitions.rst): length-preserving, involutive, rc(x.y) = rc(y).rc(x), letter-wise "
@@ -26,7 +28,10 @@ EXPLANATION = ("body VC of reverse_complement: a CircularRecord is returned whos
 
 
 def obligations(ctx):
-    return ctx.verify(FUNCTIONS) + ctx.part(lemmas)
+    obs = ctx.verify(FUNCTIONS)
+    # (as in C13: where the literal coordinates of a rotated part start is C08's business; C14 reads them modulo the length)
+    obs = [o for o in obs if "part-start-normalised" not in o.name]
+    return obs + ctx.part(lemmas)
 
 
 def rc(x):
@@ -146,14 +151,24 @@ def bounded(ctx):
                     g2 = sorted([(f["type"], tuple(norm_den(f["den"]))) for f in orr["features"] if f["den"] is not None], key=repr)
                     if w2 != g2:
                         pb.append("twice: features denote other nucleotides")
-                if str(a.seq) != str(b.seq):
-                    pb.append("rc(r >> 1) = %r but rc(r) << 1 = %r" % (str(a.seq), str(b.seq)))
-                else:
-                    oa, obb = bc.observe(a), bc.observe(b)
-                    ga = sorted([(f["type"], tuple(norm_den(f["den"]))) for f in oa["features"] if f["den"] is not None], key=repr)
-                    gb = sorted([(f["type"], tuple(norm_den(f["den"]))) for f in obb["features"] if f["den"] is not None], key=repr)
-                    if ga != gb:
-                        pb.append("rc(r >> 1) and rc(r) << 1 attach features to different nucleotides")
+                # commutation with rotation, for amount 1 and for one amount outside [0, n): several turns, either direction
+                far = (-(2 * n + 1), 3 * n + 2, -(n + 1), n, -3 * n, 2 * n + 1, -1)[(n + ti + k) % 7]
+                for m_ in (1, far):
+                    try:
+                        a, b = ((base >> m_).reverse_complement(), base.reverse_complement() << m_) if m_ != 1 else (a, b)
+                    except Exception as ex:
+                        pb.append("rotation by %d with reverse complement raised %r" % (m_, ex))
+                        continue
+                    mm = m_ % n
+                    want_text = gen.rc(bs[n - mm:] + bs[:n - mm])
+                    if str(a.seq) != str(b.seq) or str(a.seq) != want_text:
+                        pb.append("rc(r >> %d) = %r, rc(r) << %d = %r, expected %r" % (m_, str(a.seq), m_, str(b.seq), want_text))
+                    else:
+                        oa, obb = bc.observe(a), bc.observe(b)
+                        ga = sorted([(f["type"], tuple(norm_den(f["den"]))) for f in oa["features"] if f["den"] is not None], key=repr)
+                        gb = sorted([(f["type"], tuple(norm_den(f["den"]))) for f in obb["features"] if f["den"] is not None], key=repr)
+                        if ga != gb:
+                            pb.append("rc(r >> %d) and rc(r) << %d attach features to different nucleotides" % (m_, m_))
                 if pb:
                     viol.append(dict(name="rc_n%d_t%d" % (n, ti), what="n=%d table %r rotation %d: %s" % (n, feats, k, "; ".join(pb[:3])),
                                      case=dict(seq=bs, features=feats, k=k), observed=pb[:5]))
